@@ -357,7 +357,7 @@ Section WithCodec.
     assert (Hlne : lines <> []) by apply (Hindt 0%nat).
     (* what the reader sees of the body *)
     assert (Hbody : exists lines_r, split_lines body nlb true = Ok lines_r /\ length lines_r = length lines /\
-                      body <> [] /\
+                      body <> [] /\ bends nlb body = true /\
                       match indent_pv indent with
                       | Some (VInt z) =>
                           if (0 <? z)%Z
@@ -366,7 +366,7 @@ Section WithCodec.
                       | _ => body
                       end = d).
     { unfold body, indent_body. destruct Hind as [|k Hk]; cbn [indent_pv].
-      - exists lines. auto.
+      - exists lines. unfold bends. auto.
       - destruct (0 <? k)%Z eqn:Ek.
         + destruct (Hindt (Z.to_nat k)) as [I1 [_ [_ I4]]].
           set (sp := repeat_b x20 (Z.to_nat k)) in *.
@@ -374,12 +374,12 @@ Section WithCodec.
           assert (Hlen : Z.to_nat k <= length (concat (map (app sp) lines))).
           { destruct lines as [|l0 ls]; [congruence|]. cbn [map concat]. rewrite !app_length.
             unfold sp. rewrite repeat_b_length. lia. }
-          split.
+          split; [|split; [exact I4|]].
           * intros Hn. rewrite Hn in Hlen. cbn in Hlen. lia.
           * replace (Z.to_nat (Z.min k (Z.of_nat (length (concat (map (app sp) lines)))))) with (Z.to_nat k) by lia.
             unfold sp. rewrite concat_strip_indent. exact Hcat.
-        + exists lines. auto. }
-    destruct Hbody as [lines_r [Hr1 [Hr2 [Hr3 Hr4]]]].
+        + exists lines. unfold bends. auto. }
+    destruct Hbody as [lines_r [Hr1 [Hr2 [Hr3 [Hrb Hr4]]]]].
     clearbody body.
     destruct (sread_exact (st_stream st) body rest Hrem) as [Hs1 Hs2].
     unfold read_content. rewrite Hrem, (read_size body rest Hmax), Hs1.
@@ -388,7 +388,7 @@ Section WithCodec.
                   | Some (VInt z) => (z <? 0)%Z | Some (VStr _) => true | None => false end = false).
     { destruct Hind as [|k Hk]; cbn [indent_pv]; [reflexivity | lia]. }
     rewrite Hib. unfold reader_newline in Hrn. rewrite Hrn.
-    rewrite Hr1, Hr4. unfold d. rewrite (py_decode_laws t' b' Hb' Hd).
+    rewrite Hr1, Hrb, Hr4. cbn [negb]. unfold d. rewrite (py_decode_laws t' b' Hb' Hd).
     assert (Hdn : py_decode nlb enc = Ok nl).
     { unfold py_decode. rewrite (is_nil_false nlb Hn2). destruct (cl_lookup _ _ _ _ laws) as [canon ->].
       rewrite Hn5. reflexivity. }
